@@ -53,7 +53,8 @@ def run(rep, facts, tier):
                 continue
             fin = [t for t in tr if t[0] == 'Finished']
             into_fin = [t for t in tr if any(e == 'state:=Finished' for e in t[2])]
-            rep.ob('C05-D5', fn, len(fin) == 1 and fin[0][1] == () and fin[0][2] == () and fin[0][3] == 'panic' and not into_fin,
+            # every way through the Finished arm (whatever else the path has looked at first) panics with nothing done
+            rep.ob('C05-D5', fn, len(fin) >= 1 and all(t_[2] == () and t_[3] == 'panic' for t_ in fin) and not into_fin,
                    'reusing a finished decoder must panic before any callee receives dst (Finished arm: %r; transitions into Finished inside the dispatch loop: %r)' % (fin, into_fin),
                    None, {'finished_arm': [list(map(str, t)) for t in fin]}, c)
     return ('other', MANIFEST['text'], ['decoders never pass surrogate code points to the UTF-8 writers (numerical, C01)'])
